@@ -12,6 +12,15 @@ void h_gcd(void) {
   VERIF_REACH();
 }
 
+#if defined(GCD_ABS) && GCD_ABS
+void h_gcd_abs(void) {
+  IntT in_a, in_b; UIntT in_d, in_d2; _Bool in_Da, in_Db;
+  g_d = in_d; g_d2 = in_d2; g_Da = in_Da ? 1 : 0; g_Db = in_Db ? 1 : 0;   /* a nondet _Bool may hold any non-zero byte: normalise */
+  GCD_NAME(in_a, in_b);
+  VERIF_REACH();
+}
+#endif
+
 void h_reduce_fraction(void) {
   IntT in_a, in_b; UIntT in_d, in_d2, in_e;
   g_d = in_d; g_d2 = in_d2; g_e = in_e;
